@@ -267,10 +267,15 @@ def _history(e, case, tables, expected, td, sb, log, probes):
         if case.get('header') is not None:
             ckw['header'] = case['header']
         rhs = []
-        for r in e.sort(e.cat(*[dec for dec in tables], **ckw), case['key'],
-                        reverse=case['reverse']):
-            rhs.append(r)
-        if canon_rows(rhs) != canon_rows(expected):
+        try:
+            for r in e.sort(e.cat(*[dec for dec in tables], **ckw),
+                            case['key'], reverse=case['reverse']):
+                rhs.append(r)
+        except Exception as ex:
+            # (the reference model sorts these tables: so must petl)
+            rhs = ['raised %s: %s' % (type(ex).__name__, ex)]
+        if rhs[:1] != [r_ for r_ in rhs[:1] if not isinstance(r_, str)] \
+                or canon_rows(rhs) != canon_rows(expected):
             return outcome(
                 'violation', vclass='sort-cat-differs-from-model',
                 msg='sort(cat(...), key=%r, reverse=%r) gives %r, the '
